@@ -6,6 +6,7 @@ import (
 	"bytes"
 	"sort"
 	"sync"
+	"unicode"
 
 	"github.com/go-text/typesetting/di"
 	"github.com/go-text/typesetting/font"
@@ -481,6 +482,44 @@ func TrainCase(k int, faces []corpus.FaceRef) *Case {
 		c.Face = ref.String()
 	}
 	if api > 0 {
+		c.Buffer = true
+		c.Flags = 3
+	}
+	return c
+}
+
+// ---- repeat trains: a short pattern of the face's own mapped runes repeated 130 times.
+// State machines with fixed-size stacks (the 64-entry component stack of AAT ligature
+// subtables), ring buffers and per-run budgets only show on long uniform runs.
+
+var repeatPatterns = [][]int{{0}, {0, 1}, {0, 2}, {0, 1, 2}, {1, 2}}
+
+// RepeatSize is the number of repeat-train cases.
+func RepeatSize(faces []corpus.FaceRef) int { return len(faces) * len(repeatPatterns) }
+
+// RepeatCase returns repeat-train case k.
+func RepeatCase(k int, faces []corpus.FaceRef) *Case {
+	ref := faces[k/len(repeatPatterns)]
+	pat := repeatPatterns[k%len(repeatPatterns)]
+	fi := getInfo(ref)
+	var letters []rune
+	for _, r := range fi.mapped {
+		if r > 0x20 && len(letters) < 3 && (unicode.IsLetter(r) || r > 0x7F) {
+			letters = append(letters, r)
+		}
+	}
+	for len(letters) < 3 {
+		letters = append(letters, rune('a'+len(letters)))
+	}
+	var text []rune
+	for i := 0; i < 130; i++ {
+		for _, p := range pat {
+			text = append(text, letters[p])
+		}
+	}
+	c := &Case{Text: text, RunStart: 0, RunEnd: len(text), Dir: uint8(di.DirectionLTR), Size: 16 << 6, Source: "repeat-train", Face: ref.String()}
+	c.Script = uint32(guessScript(text))
+	if k%2 == 1 {
 		c.Buffer = true
 		c.Flags = 3
 	}
